@@ -253,6 +253,7 @@ func init() {
 			reflectKinds(c, "callable.go")
 			funcOfArity(c, "callable.go")
 			noRecover(c, "callable.go")
+			resultsStored(c)
 			c.errPolarity("Call")
 			out := c.sel(func(o *an.Oblig) bool { return isUndecided(o) || o.Rule == "ANCHOR" })
 			return append(out, c.C.List...)
@@ -991,5 +992,69 @@ func noRecover(c *Ctx, inFile string) {
 	q := c.F("(*callable).Call")
 	if q.ok() {
 		q.add("PATH", "a panic of the called function propagates", total > 0, pickS(total > 0, "no recover() in "+inFile+" (the detector sees the package's other recover sites)", "the recover detector found no site in the whole package: its positive control is gone, re-confirm"))
+	}
+}
+
+// resultsStored: "stores exactly the values a direct call would return". The results thunk of CallResults sets every
+// target, on every path through its loop, to the value it received for that position - not to something derived from
+// it, and not only under a condition (a nil interface result skipped "because it is invalid" leaves a stale value in
+// the target). CallResultsSlice appends the received values themselves and skips the write only when there are none.
+func resultsStored(c *Ctx) {
+	P := c.P
+	if q := c.F("CallResults$ret1$MakeFunc1"); q.ok() && len(q.fn.Params) == 1 {
+		args := q.fn.Params[0]
+		sets := P.CallsTo(q.fn, "(reflect.Value).Set")
+		if q.need(sets, "PROV", "Set of a result target") {
+			for _, st := range sets {
+				// the element of args this iteration received
+				var elem ssa.Instruction
+				okv := false
+				srcs := P.Sources(callArg(st, 1))
+				if len(srcs) == 1 {
+					switch x := srcs[0].(type) {
+					case *ssa.Extract:
+						if nx, isN := x.Tuple.(*ssa.Next); isN && x.Index == 1 {
+							if rg, isR := nx.Iter.(*ssa.Range); isR && usesValue(P, rg.X, args) {
+								okv, elem = true, nx
+							}
+						}
+					case *ssa.UnOp:
+						if ia, isIA := x.X.(*ssa.IndexAddr); isIA && x.Op == token.MUL && usesValue(P, ia.X, args) {
+							okv, elem = true, x
+						}
+					}
+				}
+				q.add("PROV", "each target is set to the result received for its position", okv && P.InCycle(st),
+					pickS(okv, "Set(args[i]) in the loop over args", "a target is set to something other than the received result itself (e.g. its Elem()): what is stored can differ from what a direct call returns"), st)
+				if elem != nil {
+					// (leaving the loop when the range is exhausted is not a skipped element)
+					var cut an.EdgeCut
+					if nx, isN := elem.(*ssa.Next); isN {
+						okIfs, okNegs := P.IfsOn(q.fn, func(cond ssa.Value) bool {
+							ex, isE := cond.(*ssa.Extract)
+							return isE && ex.Tuple == ssa.Value(nx) && ex.Index == 0
+						})
+						if len(okIfs) == 1 {
+							exit := 1
+							if okNegs[0] {
+								exit = 0
+							}
+							cut = cutEdge(okIfs[0], exit)
+						}
+					}
+					skip := P.PathExists(q.fn, elem, func(in ssa.Instruction) bool { return in == elem || an.IsReturn(in) }, an.Is(st), cut)
+					q.add("PATH", "every received result is stored", !skip,
+						pickS(!skip, "no way from taking args[i] to the next element or the return avoids Set", "a received result can be skipped (e.g. only valid / non-nil values are stored): the target keeps a stale value although Call reports success"), st)
+				}
+			}
+		}
+	}
+	if q := c.F("CallResultsSlice$ret1$MakeFunc1"); q.ok() && len(q.fn.Params) == 1 {
+		args := q.fn.Params[0]
+		apps := P.CallsTo(q.fn, "reflect.Append")
+		if q.need(apps, "PROV", "reflect.Append of the results") {
+			okv := usesValue(P, callArg(apps[0], 1), args)
+			q.add("PROV", "the received results themselves are appended", okv, pickS(okv, "Append(slice, args...)", "what is appended is not the received results"), apps[0])
+		}
 	}
 }
